@@ -193,7 +193,7 @@ Definition dec_case (input : sx) : option case :=
 
 Definition model_run (c : case) (fs : fsys) : fsys * sx * bool :=
   let '(st, e) := copy_top (k_opts c) all_selected (k_src c) fs (k_srcarg c) (k_dstarg c) in
-  (c_fs st, SL [SN (err_class e); enc_notifs (c_notifs st); enc_entries (fs_list (c_fs st))], c_stale st).
+  (c_fs st, SL [SN (err_class e); enc_notifs (c_notifs st); enc_entries (fs_list (c_fs st))], c_split st).
 
 (* canonical form of one implementation run *)
 Definition canon_run (r : sx) : option sx :=
@@ -208,13 +208,23 @@ Definition model_output2 (c : case) : sx * bool :=
   if k_second c then let '(_, r2, st2) := model_run c fs1 in (SL [r1; r2; src], st1 || st2) else (SL [r1; src], st1).
 Definition model_output (c : case) : sx := fst (model_output2 c).
 
-(* known-finding signature, computed from the case by the model: the copier's inode map
-   (source inode -> first destination PATH) went stale because a later wildcard match
-   overwrote that path; the next member of the link group is linked to the wrong file *)
-Definition sig_stale : bytes :=
-  [104;97;114;100;108;105;110;107;45;102;105;114;115;116;45;99;111;112;121;45;111;118;101;114;119;114;105;116;116;101;110].
+(* signature, computed from the case by the model: forgetLinkSources dropped the record of a
+   link group's copy (a later wildcard match replaced it) while another name of that copy
+   survives; the next member is copied afresh, so the group is spread over two inodes
+   (bytes and metadata of every name are right; only the inode partition differs) *)
+Definition sig_split : bytes :=
+  [104;97;114;100;108;105;110;107;45;103;114;111;117;112;45;115;112;108;105;116;45;97;102;116;101;114;45;111;118;101;114;119;114;105;116;101].
+(* only attached to a failure of the inode-partition clause *)
+Definition is_keys_info (info : sx) : bool :=
+  match info with
+  | SL (SB t :: _) =>
+    bytes_eqb t [105;110;111;100;101;115] ||
+    (bytes_eqb t [115;101;99;111;110;100] &&
+     match info with SL [_; SL (SB t2 :: _)] => bytes_eqb t2 [105;110;111;100;101;115] | _ => false end)
+  | _ => false
+  end.
 Definition with_sig (c : case) (info : sx) : sx :=
-  if snd (model_output2 c) then SL [SL [SB [115;105;103]; SB sig_stale]; info] else info.
+  if snd (model_output2 c) && is_keys_info info then SL [SL [SB [115;105;103]; SB sig_split]; info] else info.
 
 Definition canon_output (impl : sx) : option sx :=
   match impl with
